@@ -261,6 +261,132 @@ func RunSorters(e *Env) {
 		R.Seen("key_sequences", strings.Join(names, ","))
 	}
 	_ = sort.Ints
+	runSortersUnconnected(e, keys)
+}
+
+// runSortersUnconnected: nodes that have no connection machinery behind them - the nodes of a manager created with
+// WithNoConnect, and nodes made with NewRawNode / NewRawNodeWithID that no manager has adopted (yet) - are nodes like any other
+// to a sorter: they have an id, a port and no last error. Sorting slices that contain them, by any key sequence, must give an
+// ordered permutation as well (a panic inside a key is the violation `sort-panics-on-unconnected-nodes`).
+func runSortersUnconnected(e *Env, keys []sortKey) {
+	R := e.R
+	rng := e.Rand(1919)
+	var pool []*gorums.RawNode
+	mgr := gorums.NewRawManager(gorums.WithNoConnect())
+	var addrs []string
+	for k := 0; k < 6; k++ {
+		addrs = append(addrs, fmt.Sprintf("127.0.0.%d:%d", 1+k%3, 9100+k%2))
+	}
+	if _, err := gorums.NewRawConfiguration(mgr, gorums.WithNodeList(addrs)); err != nil {
+		R.Inconc("unconnected manager: " + err.Error())
+		return
+	}
+	pool = append(pool, mgr.Nodes()...)
+	for k := 0; k < 4; k++ {
+		var n *gorums.RawNode
+		var err error
+		if k%2 == 0 {
+			n, err = gorums.NewRawNode(fmt.Sprintf("127.0.0.3:%d", 9100+k))
+		} else {
+			n, err = gorums.NewRawNodeWithID(fmt.Sprintf("127.0.0.1:%d", 9100+k), uint32(k))
+		}
+		if err != nil {
+			R.Inconc("standalone node: " + err.Error())
+			return
+		}
+		pool = append(pool, n)
+	}
+	R.Count("pool_nodes_never_connected", int64(len(pool)))
+	// the model: never connected = no last error
+	model := []sortKey{keys[0], keys[1], {"LastNodeError", gorums.LastNodeError, func(a, b *gorums.RawNode) int { return 0 }}}
+	desc := func(n *gorums.RawNode) string { return fmt.Sprintf("(%d,%d,unconnected)", n.ID(), portOf(n)) }
+	nsort := e.Pick(2000, 50000)
+	if e.Of > 1 {
+		nsort /= e.Of
+	}
+	for it := 0; it < nsort; it++ {
+		if R.NumViolations() > 5 {
+			return
+		}
+		nk := 1 + rng.Intn(3)
+		var ks []sortKey
+		var names []string
+		var less []func(a, b *gorums.RawNode) bool
+		for i := 0; i < nk; i++ {
+			k := model[rng.Intn(len(model))]
+			ks = append(ks, k)
+			names = append(names, k.name)
+			less = append(less, k.less)
+		}
+		ln := 2 + rng.Intn(12)
+		in := make([]*gorums.RawNode, ln)
+		for i := range in {
+			in[i] = pool[rng.Intn(len(pool))]
+		}
+		out := append([]*gorums.RawNode(nil), in...)
+		var lastErrs []error
+		t := h.Go("sort-unconnected", func() {
+			orderedBy(less).Sort(out)
+			for _, n := range in {
+				lastErrs = append(lastErrs, n.LastErr())
+			}
+		})
+		<-t.Done
+		det := func() map[string]any {
+			var i2, o2 []string
+			for _, n := range in {
+				i2 = append(i2, desc(n))
+			}
+			for _, n := range out {
+				o2 = append(o2, desc(n))
+			}
+			return map[string]any{"keys": names, "input": i2, "output": o2, "nodes": "6 nodes of a WithNoConnect manager, 4 nodes no manager has adopted"}
+		}
+		if t.Panic != nil {
+			R.Violate("sort-panics-on-unconnected-nodes", "sorting (or asking LastErr of) nodes that were never connected panics: "+strings.SplitN(fmt.Sprint(t.Panic), "\n", 2)[0], det())
+			return
+		}
+		var sb strings.Builder
+		for _, n := range in {
+			sb.WriteString(desc(n))
+		}
+		R.Eval("unconnected|"+strings.Join(names, ",")+"|"+sb.String(), true)
+		R.Count("sortings_of_unconnected_nodes", 1)
+		for _, le := range lastErrs {
+			if le != nil {
+				R.Violate("unconnected-node-has-error", "a node that was never connected reports a last error: "+le.Error(), det())
+				return
+			}
+		}
+		cnt := map[*gorums.RawNode]int{}
+		for _, n := range in {
+			cnt[n]++
+		}
+		for _, n := range out {
+			cnt[n]--
+		}
+		for _, c := range cnt {
+			if c != 0 {
+				R.Violate("not-a-permutation", "sorted slice of unconnected nodes is not a permutation of the input", det())
+				return
+			}
+		}
+		for i := 1; i < len(out); i++ {
+			c := 0
+			for _, k := range ks {
+				if c = k.cmp(out[i-1], out[i]); c != 0 {
+					break
+				}
+			}
+			if c > 0 {
+				R.Violate("not-ordered:"+strings.Join(dedupe(names), ","), fmt.Sprintf("result of OrderedBy(%s) on unconnected nodes is not ordered at position %d: %s before %s", strings.Join(names, ", "), i, desc(out[i-1]), desc(out[i])), det())
+				return
+			}
+		}
+		if it == 0 {
+			R.Sample(det())
+		}
+	}
 }
 
 func dedupe(s []string) []string {
